@@ -1,4 +1,5 @@
 import Batteries.Tactic.Alias
+import GenlmModel.Proofs.Fast
 import GenlmModel.Proofs.Fst
 import GenlmModel.Proofs.Tab
 import GenlmModel.Proofs.Compose
@@ -21,4 +22,5 @@ alias pruning_irrelevant := Genlm.compose_eq_composeAll
 /-- acceptor / string composition is the pointwise product -/
 alias compose_acceptor := Genlm.compose_acceptor
 alias compose_string := Genlm.compose_string
+alias driver_compose_is_model := Genlm.composeShared_eq
 end Genlm.Props.C09
